@@ -2,6 +2,8 @@
 //! and `crates/solana-utils` (C26, C27, C28, C34, C35 helper part, C41).
 mod c26;
 mod c27;
+mod c28;
+mod c34;
 
 use mc_core::{Cli, Report};
 
@@ -11,6 +13,8 @@ fn main() {
     let rep: Report = match cli.property.as_str() {
         "C26" => c26::run(&cli),
         "C27" => c27::run(&cli),
+        "C28" => c28::run(&cli),
+        "C34" => c34::run(&cli),
         other => {
             eprintln!("unknown property {other}");
             std::process::exit(2)
